@@ -169,7 +169,13 @@ def run(repo, rep):
             why = ''
             keys = ['k%d' % i for i in range(nk)]
             if nk > 1 and pr.assumed('sort_dict_keys', True):
-                keys = ['sorted%d(%s)' % (i, ','.join(keys)) for i in range(nk)]
+                # the exact sort key / direction is the subject of C01.e; here only the pairing of keys and values matters
+                srt_names = []
+                for a_ in D.linearise(t, 'break', lambda g_: 'break'):
+                    if isinstance(a_, D.Sub) and norm_k(a_.prov).startswith('sorted') and norm_k(a_.prov) not in srt_names:
+                        srt_names.append(norm_k(a_.prov))
+                if len(srt_names) == nk:
+                    keys = srt_names
             for seq in D.all_layouts(t):
                 sig = list(S.content_sig(seq))
                 want = [('Text', '{')]
@@ -272,37 +278,37 @@ def run(repo, rep):
                   '%s is %s' % (cname, src(a[-1]) if a else None))
     rep.floor('C01.d', n, 7)
 
-    # ---------------------------------------------------------------- C01.e key order
+    # ---------------------------------------------------------------- C01.e key order (semantic: read off the interpreted dict printer)
     n = 0
-    dnode = fd.node
-    dparam = fd.params[0]
-    loops = [l for l in ast.walk(dnode) if isinstance(l, ast.For) and any(isinstance(c, ast.Subscript) and src(c.value) == dparam for c in ast.walk(l))]
-    n += 1
-    if len(loops) != 1:
-        rep.fail('C01.e', 'pretty_dict:key-loop', fd.where, 'expected one loop reading %s[k], found %d' % (dparam, len(loops)))
-    else:
-        it_ = loops[0].iter
-        if isinstance(it_, ast.Call) and call_name(it_) in ('take', 'islice'):
-            it_ = it_.args[1] if call_name(it_) == 'take' else it_.args[0]
-        defs = {}
-        for s in ast.walk(dnode):
-            if isinstance(s, ast.Assign) and len(s.targets) == 1 and isinstance(s.targets[0], ast.Name):
-                defs.setdefault(s.targets[0].id, []).append(s.value)
-        e = it_
-        if isinstance(e, ast.Name) and len(defs.get(e.id, [])) == 1:
-            e = defs[e.id][0]
-        ok = False
-        why = src(e)
-        if isinstance(e, ast.IfExp) and src(e.test) in ('ctx.sort_dict_keys', '%s.sort_dict_keys' % fd.params[1]):
-            srt, plain = e.body, e.orelse
-            ok = src(plain) in (dparam + '.keys()', dparam, 'list(%s)' % dparam, 'list(%s.keys())' % dparam) and \
-                isinstance(srt, ast.Call) and call_name(srt) == 'sorted' and srt.args and \
-                src(srt.args[0]) in (dparam + '.keys()', dparam) and \
-                {k.arg for k in srt.keywords} <= {'key'} and \
-                all(src(k.value) == '_AlwaysSortable' for k in srt.keywords)
-        rep.check(ok, 'C01.e', 'pretty_dict:key-order', '%s:%d' % (fd.module.relpath, loops[0].lineno),
-                  'own order, or sorted(keys, key=_AlwaysSortable) when sorting is requested',
-                  'the pairs of a dict are iterated over %s: insertion order / ascending key order is not guaranteed' % why, nontrivial=True)
+    d2 = ValueV('d', TypeV('dict'), [Sym('k0'), Sym('k1')])
+
+    def p_plain(it_, a_, k_, n_):
+        r_ = S.p_pretty_python_value(it_, a_, k_, n_)
+        r_.t.commented = False
+        return r_
+    ite = S.interp(repo, 'builder', {'pretty_str': S.p_pretty_str_as_sub, 'build_fncall': S.p_build_fncall, 'pretty_call_alt': S.p_pretty_call_alt,
+                                     'pretty_python_value': p_plain})
+    for pr in ite.explore(fd, [d2, CtxV()], {'trailing_comment': NONE}):
+        if pr.raised is not None or not isinstance(pr.value, DocV) or pr.assumed('depth_left', True):
+            continue
+        sort_on = None
+        for k_, v_ in pr.facts:
+            if 'sort_dict_keys' in k_:
+                sort_on = v_
+        subs = [a.prov for a in D.linearise(pr.value.t, 'break', lambda g_: 'break') if isinstance(a, D.Sub)]
+        keyprovs = subs[0::2]
+        n += 1
+        if sort_on is None:
+            rep.fail('C01.e', 'pretty_dict:key-order{?}', fd.where, 'the path (%s) never consults sort_dict_keys' % pr.fact_text()[:100])
+        elif sort_on:
+            ok = len(keyprovs) == 2 and all(p_.startswith('sorted%d(k0,k1' % i) and 'key=_AlwaysSortable' in p_ and 'reverse' not in p_
+                                            for i, p_ in enumerate(keyprovs))
+            rep.check(ok, 'C01.e', 'pretty_dict:key-order{sorted}', fd.where, 'sorted(own keys, key=_AlwaysSortable), ascending',
+                      'with sort_dict_keys the pairs are printed in the order %s: expected the keys sorted ascending with the always-sortable key '
+                      'wrapper' % keyprovs, nontrivial=True)
+        else:
+            rep.check(keyprovs == ['k0', 'k1'], 'C01.e', 'pretty_dict:key-order{insertion}', fd.where, 'iteration order of the dict',
+                      'without sort_dict_keys the pairs are printed in the order %s instead of the dict\'s own order' % keyprovs, nontrivial=True)
     srt = m.classes.get('_AlwaysSortable')
     n += 1
     ok = False
@@ -345,6 +351,10 @@ def run(repo, rep):
                   'int literal is the integer\'s repr', 'pretty_int prints %s' % D.show(t), nontrivial=True)
     rep.floor('C01.f', n, 3)
 
+
+
+def norm_k(p):
+    return p.replace('/uncommented', '')
 
 
 def _eq(test, value, *consts):
